@@ -78,6 +78,9 @@ type caseDef struct {
 	// FlakyCloseDelimited: the failed first attempt announces no Content-Length (body delimited by the end of the
 	// connection) and is cut mid-body; only the length of what arrived could tell that it is a fragment.
 	FlakyCloseDelimited bool `json:"flaky_close_delimited,omitempty"`
+	// FirstStatus: the first download attempt is answered with this status (206 with half of the file, 202 with a
+	// status document, 204 without body) instead of 200: it is not the file and must not be published.
+	FirstStatus int `json:"first_status,omitempty"`
 }
 
 func (c caseDef) id() string {
@@ -171,11 +174,20 @@ type served struct {
 	truncateFirst atomic.Int32
 	// closeDelimited: the truncated answers carry no Content-Length
 	closeDelimited bool
+	// firstStatus != 0: the first request is answered with this status and something that is not the file
+	firstStatus int
 }
 
 func serve(path string, data []byte, truncateFirst int, closeDelimited ...bool) {
 	sv := &served{data: data, closeDelimited: len(closeDelimited) > 0 && closeDelimited[0]}
 	sv.truncateFirst.Store(int32(truncateFirst))
+	srvFiles.Store(path, sv)
+}
+
+// serveOddFirst: the first request is answered with the given 2xx status (206, 202, 204), later ones with the file.
+func serveOddFirst(path string, data []byte, status int) {
+	sv := &served{data: data, firstStatus: status}
+	sv.truncateFirst.Store(1)
 	srvFiles.Store(path, sv)
 }
 
@@ -189,6 +201,25 @@ func server() *httptest.Server {
 			}
 			sv := v.(*served)
 			b := sv.data
+			if sv.firstStatus != 0 && sv.truncateFirst.Load() > 0 {
+				// the first attempt is answered with another 2xx status and a well-formed body that is not the file
+				sv.truncateFirst.Add(-1)
+				part := []byte{}
+				switch sv.firstStatus {
+				case http.StatusPartialContent:
+					part = b[:len(b)/2]
+					w.Header().Set("Content-Range", fmt.Sprintf("bytes 0-%d/%d", len(part)-1, len(b)))
+				case http.StatusAccepted:
+					part = []byte("accepted, come back later\n")
+				}
+				if sv.firstStatus != http.StatusNoContent {
+					w.Header().Set("Content-Length", fmt.Sprint(len(part)))
+					w.Header().Set("Content-Type", "application/octet-stream")
+				}
+				w.WriteHeader(sv.firstStatus)
+				_, _ = w.Write(part)
+				return
+			}
 			if sv.closeDelimited && sv.truncateFirst.Load() > 0 {
 				sv.truncateFirst.Add(-1)
 				// no Content-Length, no chunking: the body ends where the connection ends - here in the middle
@@ -564,6 +595,9 @@ func build(c caseDef) (*built, error) {
 			truncated = 1
 		}
 		serve(token+"/"+rel, newData, truncated, c.FlakyCloseDelimited)
+		if c.FirstStatus != 0 {
+			serveOddFirst(token+"/"+rel, newData, c.FirstStatus)
+		}
 		cleanups = append(cleanups, func() { srvFiles.Delete(token + "/" + rel); srvFiles.Delete(token + "/" + rel + ".sig") })
 		b.exp.MayCreateDirs = []string{filepath.Join(storage, "x")}
 		fileTarget := target{Path: dest, Kind: "file", NewData: newData, SingleFile: true}
